@@ -153,6 +153,19 @@ func (h *DecryptionKeySharesHandler) HandleMessage(ctx context.Context, msg p2pm
 			signerIndices = append(signerIndices, uint64(signature.KeyperIndex))
 			signatures = append(signatures, signature.Signature)
 		}
+		// This keys message does not pass the messaging middleware and we do not handle our own
+		// messages, so advance the tx pointer here as for any other keys message.
+		err = gnosisDB.SetTxPointer(ctx, database.SetTxPointerParams{
+			Eon: int64(keyShares.Eon),
+			Age: sql.NullInt64{
+				Int64: 0,
+				Valid: true,
+			},
+			Value: int64(extra.TxPointer) + int64(len(keys)) - 1,
+		})
+		if err != nil {
+			return []p2pmsg.Message{}, errors.Wrap(err, "failed to set tx pointer")
+		}
 		decryptionKeysMsg := &p2pmsg.DecryptionKeys{
 			InstanceId: keyShares.InstanceId,
 			Eon:        keyShares.Eon,
